@@ -357,4 +357,4 @@ def run(ctx):
     c07.r_addpoint(ctx)
     r_addconstraint(ctx)
     ctx.floor("step functions", len(steps), 8)
-    ctx.floor("step paths", npaths, 11)
+    ctx.floor("step paths", npaths, 10)
